@@ -119,16 +119,44 @@ theorem counters_match_tasks (now : Time) (d : PIndex) (rj : Job) (tasks : List 
     rw [List.countP_eq_length_filter]
 
 /-- `GetTaskRef` never clears a recorded running / finish timestamp: it keeps the task's own
-value when the task reports one, the previously recorded value otherwise. -/
+value when the task reports one, the previously recorded value otherwise — except that a finish
+time recorded together with a final state is never replaced (see `getTaskRef_final_kept`). -/
 theorem getTaskRef_retains (ex : TaskRef) (task : Task) :
     ((getTaskRef (some ex) task).runningTimestamp =
       if task.ref.runningTimestamp.isSome then task.ref.runningTimestamp else ex.runningTimestamp) ∧
     ((getTaskRef (some ex) task).finishTimestamp =
-      if task.ref.finishTimestamp.isSome then task.ref.finishTimestamp else ex.finishTimestamp) ∧
+      if task.ref.finishTimestamp.isSome then
+        (if ex.finishTimestamp.isSome && isFinalTaskState ex.status.state then ex.finishTimestamp
+         else task.ref.finishTimestamp)
+      else ex.finishTimestamp) ∧
     (ex.runningTimestamp.isSome = true → (getTaskRef (some ex) task).runningTimestamp.isSome = true) ∧
     (ex.finishTimestamp.isSome = true → (getTaskRef (some ex) task).finishTimestamp.isSome = true) := by
   unfold getTaskRef
-  cases hr : task.ref.runningTimestamp <;> cases hf : task.ref.finishTimestamp <;> simp [hr, hf]
+  cases hr : task.ref.runningTimestamp <;> cases hf : task.ref.finishTimestamp <;>
+    cases hx : ex.finishTimestamp <;> cases hfs : isFinalTaskState ex.status.state <;>
+    simp [hr, hf, hx, hfs]
+
+/-- first terminal observation wins: once a ref is finished with a final state (Terminated /
+DeletedFinalStateUnknown), a task that reports a (possibly different) terminal status no longer
+changes its status, finish time or deleted status — whatever copy of the task the cache serves. -/
+theorem getTaskRef_final_kept (ex : TaskRef) (task : Task)
+    (hfin : ex.finishTimestamp.isSome = true) (hst : isFinalTaskState ex.status.state = true)
+    (ht : task.ref.finishTimestamp.isSome = true) :
+    (getTaskRef (some ex) task).status = ex.status ∧
+    (getTaskRef (some ex) task).finishTimestamp = ex.finishTimestamp ∧
+    (getTaskRef (some ex) task).deletedStatus = ex.deletedStatus := by
+  unfold getTaskRef
+  simp [hfin, hst, ht]
+
+/-- a ref recorded lost at 9 … -/
+def lostAt9 : TaskRef :=
+  { name := "t", finishTimestamp := some 9, status := { state := .deletedFinalStateUnknown } }
+/-- … and a stale cached copy of its pod that reports success at 12 -/
+def staleSucceeded : Task :=
+  { name := "t", ref := { name := "t", finishTimestamp := some 12, status := { state := .terminated, result := .succeeded } } }
+
+example : (getTaskRef (some lostAt9) staleSucceeded).status.state = .deletedFinalStateUnknown ∧
+    (getTaskRef (some lostAt9) staleSucceeded).finishTimestamp = some 9 := by decide
 
 /-- … and neither does the tombstone of a vanished task: it keeps the recorded timestamps and
 always carries a finish timestamp; its status is `DeletedStatus` if set, else
